@@ -20,7 +20,9 @@ RULE = ("(a) seeded histories of seek/tell/read on HTTPFile for resources of siz
         "in-range read with blob[pos:pos+n] directly; about one read in ten is hit by an injected "
         "download failure at a chosen request of its chunk loop (position must not move, the retry "
         "must return the bytes); the same histories are driven through S3File with a fake "
-        "s3_object that honours RFC 7233 ranges. (b) RTDC_HTTP (patched to small chunk "
+        "s3_object that honours RFC 7233 ranges; groups of 2-3 file objects open at the same time "
+        "(same or different resources, different chunk sizes) with interleaved histories, each "
+        "member judged like a file object alone in the process. (b) RTDC_HTTP (patched to small chunk "
         "size/capacity) vs RTDC_HDF5 on generated .rtdc files. distinct = distinct "
         "(cs,keep,len,op list) histories containing at least one read that crosses a chunk "
         "boundary or triggers an eviction.")
@@ -59,6 +61,19 @@ class FaultySession(common.FakeSession):
                 self.fail_in = None
                 raise InjectedFault("injected download failure")
             self.fail_in -= 1
+        rng_h = (headers or {}).get("Range")
+        if url in self.blobs and rng_h is None:
+            import hashlib
+            blob = self.blobs[url]
+            self.log.append((url, None))
+            return common.FakeResponse(200, blob, {
+                "content-length": str(len(blob)),
+                "etag": '"%s"' % hashlib.md5(blob).hexdigest()})      # ETag identifies the content
+        if url in self.blobs and rng_h is not None:
+            import re
+            if not re.fullmatch(r"bytes=\d+-\d+", str(rng_h)):       # not a byte range a server
+                self.log.append((url, rng_h))                         # would satisfy
+                return common.FakeResponse(416, self.oob, reason="Range Not Satisfiable")
         return super().get(url, headers=headers, **kw)
 
 
@@ -79,20 +94,24 @@ class FakeS3Object:
     def get(self, Range=None, **kw):
         import io
         self.log.append((URL, Range))
+        if not (isinstance(Range, str) and Range.startswith("bytes=")):
+            return {"Body": io.BytesIO(self.oob)}
         if self.fail_in is not None:
             if self.fail_in == 0:
                 self.fail_in = None
                 raise InjectedFault("injected download failure")
             self.fail_in -= 1
-        assert isinstance(Range, str) and Range.startswith("bytes="), Range
-        a, b = Range[6:].split("-")
-        a, b = int(a), int(b)
+        try:
+            a, b = Range[6:].split("-")
+            a, b = int(a), int(b)
+        except ValueError:
+            return {"Body": io.BytesIO(self.oob)}
         if a >= len(self.blob) or b < a:
             return {"Body": io.BytesIO(self.oob)}
         return {"Body": io.BytesIO(self.blob[a:b + 1])}
 
 
-def open_file(case, oob):
+def open_file(case, oob, ses=None, url=URL):
     """the file object under test and the object that logs its requests"""
     from dclab import http_utils
     blob = bytes(case["blob"])
@@ -106,19 +125,24 @@ def open_file(case, oob):
             raise Skip("S3File has no _chunk_size/_keep_chunks attributes any more")
         f._chunk_size, f._keep_chunks = case["cs"], case["keep"]
         return f, srv
-    ses = FaultySession(oob=oob)
-    http_utils.session_cache.sessions["verif.invalid"] = ses
-    ses.blobs[URL] = blob
-    return http_utils.HTTPFile(URL, chunk_size=case["cs"], keep_chunks=case["keep"]), ses
+    if ses is None:
+        ses = FaultySession(oob=oob)
+        http_utils.session_cache.sessions["verif.invalid"] = ses
+    ses.blobs[url] = blob
+    return http_utils.HTTPFile(url, chunk_size=case["cs"], keep_chunks=case["keep"]), ses
 
 
 # --------------------------------------------------------------------------------------
-def gen_history(rng, thorough, faults=True):
+def gen_history(rng, thorough, faults=True, blob=None, same_len_as=None):
     cs = rng.choice([1, 2, 3, 7, 16, 64])
     keep = rng.choice([2, 2, 3, 8, 200])
     k = rng.randint(0, 9 if thorough else 6)
     length = max(1, k * cs + rng.choice([-1, 0, 1]))
-    blob = bytes(rng.randrange(256) for _ in range(length))
+    if blob is not None:
+        length = len(blob)
+    elif same_len_as is not None:
+        length = len(same_len_as)
+    blob = bytes(blob) if blob is not None else bytes(rng.randrange(256) for _ in range(length))
     nops = rng.randint(5, 120 if thorough else 50)
     ops = []
     pos = 0
@@ -173,14 +197,35 @@ def gen_history(rng, thorough, faults=True):
     return {"cs": cs, "keep": keep, "blob": list(blob), "ops": ops}
 
 
-def run_impl(case, oob=b"\xfe\xfd"):
-    """drive the real HTTPFile / S3File; returns (lines, state_lines, direct spec failures)"""
-    common.import_dclab()
-    f, srv = open_file(case, oob)
-    blob = bytes(case["blob"])
-    out, states, specfail = [], [], []
-    pos = 0
-    for i, op in enumerate(case["ops"]):
+def fmt_range(r):
+    """'bytes=a-b' -> 'a-(b+1)' (the model's half-open notation); anything else verbatim"""
+    import re
+    m = re.fullmatch(r"bytes=(\d+)-(-?\d+)", str(r))
+    if not m:
+        return "?" + str(r)
+    return f"{int(m.group(1))}-{int(m.group(2)) + 1}"
+
+
+class Runner:
+    """drives one real HTTPFile / S3File through the ops of `case`, one op per `step()`"""
+
+    def __init__(self, case, oob=b"\xfe\xfd", ses=None, url=URL):
+        common.import_dclab()
+        self.case = case
+        self.f, self.srv = open_file(case, oob, ses=ses, url=url)
+        self.url = url
+        self.blob = bytes(case["blob"])
+        self.out, self.states, self.specfail = [], [], []
+        self.pos = 0
+        self.i = 0
+
+    def done(self):
+        return self.i >= len(self.case["ops"])
+
+    def step(self):
+        case, f, srv, blob, pos, i = self.case, self.f, self.srv, self.blob, self.pos, self.i
+        op = case["ops"][i]
+        out, specfail = self.out, self.specfail
         try:
             if op[0] in ("read", "readf"):
                 n = op[1]
@@ -196,6 +241,13 @@ def run_impl(case, oob=b"\xfe\xfd"):
                         specfail.append((i, f"read({n}) at {pos} failed with a download error but "
                                             f"moved the position to {p}"))
                         pos = p
+                except Exception as e:  # noqa
+                    if inside and case["keep"] >= 2:
+                        specfail.append((i, f"read({n}) at {pos} (inside the resource of "
+                                            f"{len(blob)} bytes, chunk size {case['cs']}, "
+                                            f"keep_chunks {case['keep']}) raised "
+                                            f"{type(e).__name__}: {str(e)[:120]}"))
+                    raise
                 else:
                     out.append("data " + ",".join(str(b) for b in d))
                     if inside and bytes(d) != blob[pos:pos + n]:
@@ -217,18 +269,72 @@ def run_impl(case, oob=b"\xfe\xfd"):
             out.append(common.err_class(e))
         if case["keep"] >= 2 and len(f.cache) > case["keep"]:
             specfail.append((i, f"{len(f.cache)} chunks cached > keep_chunks={case['keep']}"))
-        reqs = []
-        for (_u, r) in srv.log:
-            if r is not None:
-                a, b = r[6:].split("-")
-                reqs.append(f"{int(a)}-{int(b) + 1}")
-        states.append("cache " + ",".join(str(k) for k in f.cache.keys())
-                      + " reqs " + ";".join(reqs))
-    try:
-        f.close()
-    except Exception:  # noqa
-        pass
-    return out, states, specfail
+        reqs = [fmt_range(r) for (u, r) in srv.log if r is not None and u == self.url]
+        self.states.append("cache " + ",".join(str(k) for k in f.cache.keys())
+                           + " reqs " + ";".join(reqs))
+        self.pos = pos
+        self.i += 1
+
+    def close(self):
+        try:
+            self.f.close()
+        except Exception:  # noqa
+            pass
+
+    def result(self):
+        return self.out, self.states, self.specfail
+
+
+def run_impl(case, oob=b"\xfe\xfd"):
+    """drive the real HTTPFile / S3File; returns (lines, state_lines, direct spec failures)"""
+    r = Runner(case, oob)
+    while not r.done():
+        r.step()
+    r.close()
+    return r.result()
+
+
+def run_group(group, oob=b"\xfe\xfd"):
+    """several file objects alive at the same time (same or different resources, different chunk
+    sizes and capacities), their histories interleaved by `schedule`; returns one result per member"""
+    common.import_dclab()
+    from dclab import http_utils
+    ses = FaultySession(oob=oob)
+    http_utils.session_cache.sessions["verif.invalid"] = ses
+    runners = []
+    for c in group["members"]:
+        runners.append(Runner(c, oob, ses=ses, url=c["url"]))
+    for k in group["schedule"]:
+        if not runners[k].done():
+            runners[k].step()
+    for r in runners:
+        while not r.done():
+            r.step()
+    for r in runners:
+        r.close()
+    return [r.result() for r in runners]
+
+
+def gen_group(rng, thorough):
+    """2-3 concurrently open files; each resource is served under its own URL, members of the
+    same resource share the URL (and hence the ETag)"""
+    nres = rng.choice([1, 1, 2])
+    members = []
+    blobs = {}
+    for j in range(rng.choice([2, 2, 3])):
+        r = rng.randrange(nres)
+        c = gen_history(rng, thorough, faults=False, blob=blobs.get(r),
+                        same_len_as=(blobs.get(0) if rng.random() < 0.5 else None))
+        blobs.setdefault(r, c["blob"])
+        c["url"] = f"http://verif.invalid/group-res{r}.bin"
+        c["ops"] = c["ops"][:40]
+        members.append(c)
+    schedule = []
+    for k, c in enumerate(members):
+        schedule += [k] * len(c["ops"])
+    # interleave in bursts: a file usually performs a few operations in a row
+    rng.shuffle(schedule)
+    return {"members": members, "schedule": schedule}
 
 
 def model_lines(case, oob=b"\xfe\xfd"):
@@ -249,7 +355,10 @@ def compare(case, impl_out, impl_states, model_out):
         m_state = body[2 * i + 1].strip()
         if m_ans != impl_out[i].strip():
             return i, f"op {case['ops'][i]}: impl '{impl_out[i][:60]}' model '{m_ans[:60]}'"
-        if m_state != impl_states[i].strip():
+        i_state = impl_states[i].strip()
+        if case.get("group"):        # request logs of files sharing a URL cannot be told apart
+            m_state, i_state = m_state.split(" reqs")[0].strip(), i_state.split(" reqs")[0].strip()
+        if m_state != i_state:
             return i, f"after op {case['ops'][i]}: impl '{impl_states[i][:80]}' model '{m_state[:80]}'"
     return None
 
@@ -279,6 +388,29 @@ def spec_fails(case):
         return bool(run_impl(case)[2])
     except Exception:
         return False
+
+
+def group_fails(g):
+    try:
+        return any(r[2] for r in run_group(g))
+    except Exception:  # noqa
+        return False
+
+
+def shrink_group(g):
+    """shorten the members' op lists (and the schedule with them) while some member still fails"""
+    g = {"members": [dict(c) for c in g["members"]], "schedule": list(g["schedule"])}
+    for k in range(len(g["members"])):
+        def pred(ops, k=k):
+            cand = {"members": [dict(c) for c in g["members"]], "schedule": g["schedule"]}
+            cand["members"][k]["ops"] = ops
+            return group_fails(cand)
+        ops = g["members"][k]["ops"]
+        if len(ops) > 1:
+            small = common.ddmin(ops, pred, max_tests=60)
+            if pred(small):
+                g["members"][k]["ops"] = small
+    return g
 
 
 def shrink(case, pred):
@@ -506,6 +638,24 @@ def run(ctx):
     keep_idx = [i for i, r in enumerate(impl) if r is not None]
     cases = [cases[i] for i in keep_idx]
     impl = [impl[i] for i in keep_idx]
+    # several file objects open at the same time (same / different resources, different chunk
+    # sizes): every member must behave like a file object that is alone in the process
+    groups = [gen_group(ctx.rng, ctx.thorough) for _ in range(ctx.n(40, 600))]
+    for g in groups:
+        res = run_group(g)
+        for c, r in zip(g["members"], res):
+            c["group"] = True
+            if r[2]:
+                small = shrink_group(g)
+                bad = [x for x in run_group(small) if x[2]]
+                ctx.violation("spec", "HTTPFile (several file objects open at the same time): "
+                              + (bad[0][2][0][1] if bad else r[2][0][1]), small)
+                break
+            cases.append(c)
+            impl.append((r[0], r[1], []))
+        ctx.stat("groups")
+        ctx.stat("group_same_resource" if len({c["url"] for c in g["members"]}) < len(g["members"])
+                 else "group_distinct_resources")
     # model side: one driver invocation for all cases
     model = None
     if ctx.lean_ok:
@@ -564,6 +714,14 @@ def run(ctx):
 
 def replay(ctx, data):
     rp = data["replay"]
+    if "members" in rp:
+        for c in rp["members"]:
+            c["ops"] = [tuple(o) for o in c["ops"]]
+        res = run_group(rp)
+        for r in res:
+            print("impl:", r[0][:20])
+            print("specfail:", r[2])
+        return any(r[2] for r in res)
     if "ops" in rp:
         rp["ops"] = [tuple(o) for o in rp["ops"]]
         out, st, sf = run_impl(rp)
